@@ -1,4 +1,5 @@
 import AmrK.ReaderRProofs
+import AmrK.BoxSelProofs
 import AmrK.Codec
 import AmrK.Obligations.FortranOrder
 /-! # C01 — box data read through the indexing interface is exactly what is on disk
@@ -53,6 +54,46 @@ theorem read_slice (pre line payload post : Bytes) (h : Hdr) (n nf : Nat)
         = some ⟨spatial h ++ [((pyRange s e st).length : Int)],
                 (pyRange s e st).map fun i => block payload n i.toNat⟩ :=
   readR_slice pre line payload post h n nf hl hp hcells hn hnf hlen a b c hc
+
+/-- **the whole selection `pck[fields][level][boxes]`** (`BoxSel.readSel`: the box selector's meaning among the boxes of the
+    level - `BoxSel.positions`, the executable definition compared with the boxes the real reader returns for every selector
+    form - and then the field read of every selected box).  On a level whose every recorded entry points at the FAB of its
+    box: a box selector without meaning is refused; a field selector without meaning is refused as soon as a box is selected;
+    otherwise the result lists, for each selected box **in the order requested**, exactly the component blocks the field
+    selector denotes of **that box's** payload - never another field, box or shape. -/
+theorem selection_refuse_or_exact (files : List Bytes) (entries : List (Nat × Nat)) (nf : Nat) (fa : FArg) (sel : BoxSel.Sel)
+    (hdr : Nat → Hdr) (cells : Nat → Nat) (payload : Nat → Bytes)
+    (hbox : ∀ p e, entries[p]? = some e → BoxSel.BoxAt files e nf (hdr p) (cells p) (payload p)) :
+    match BoxSel.positions entries.length sel with
+    | none => BoxSel.readSel files entries (nf : Int) fa sel = none
+    | some ps =>
+      match selected nf fa with
+      | none => ps = [] ∨ BoxSel.readSel files entries (nf : Int) fa sel = none
+      | some fs => ∃ shape : Nat → List Int, BoxSel.readSel files entries (nf : Int) fa sel
+          = some (ps.map fun p => ⟨shape p, fs.map (block (payload p) (cells p))⟩) :=
+  BoxSel.readSel_exact files entries nf fa sel hdr cells payload hbox
+
+/-- every selector form (index, slice with any step, index list, boolean mask) denotes boxes of the level only -/
+theorem box_positions_in_level (size : Nat) (sel : BoxSel.Sel) (ps : List Nat) (h : BoxSel.positions size sel = some ps) :
+    ∀ p ∈ ps, p < size :=
+  BoxSel.positions_lt size sel ps h
+
+/-- an index list is delivered entry by entry in the order requested (negative entries count from the last box) -/
+theorem box_list_order (size : Nat) (l : List Int) (ps : List Nat) (h : BoxSel.positions size (.list l) = some ps) :
+    ps.length = l.length ∧ ∀ (k : Nat) (i : Int) (p : Nat), l[k]? = some i → ps[k]? = some p →
+      ((0 ≤ i → (p : Int) = i) ∧ (i < 0 → (p : Int) = i + size)) := by
+  obtain ⟨h1, h2⟩ := BoxSel.mapM_wrap_order size l ps h
+  exact ⟨h1, fun k i p hi hp => BoxSel.wrap_spec size i p (h2 k i p hi hp)⟩
+
+/-- a boolean mask with one entry per box denotes exactly the boxes marked true, in increasing order -/
+theorem box_mask (m : List Bool) (hne : m ≠ []) :
+    ∃ ps, BoxSel.positions m.length (.mask m) = some ps ∧ (∀ p, p ∈ ps ↔ m[p]? = some true) ∧ ps.Pairwise (· < ·) :=
+  BoxSel.positions_mask m hne
+
+example : BoxSel.positions 5 (.slice none none (some (-2))) = some [4, 2, 0] ∧
+    BoxSel.positions 5 (.list [-1, 0, 3]) = some [4, 0, 3] ∧ BoxSel.positions 5 (.list [5]) = none ∧
+    BoxSel.positions 3 (.mask [true, false, true]) = some [0, 2] ∧ BoxSel.positions 3 (.mask [true]) = none ∧
+    BoxSel.positions 3 (.idx (-4)) = none ∧ BoxSel.level 3 (-1) = some 2 ∧ BoxSel.level 3 3 = none := by decide +kernel
 
 /-- the canonical header the writers print parses back to the box it names (codec law), so the
     hypotheses `IsLine` / `parseFabHeader line = some h` are met by every header the toolbox writes -/
